@@ -7,10 +7,17 @@ from vf.core import Ctx
 
 def run(ctx: Ctx) -> None:
     from props.respfam import d22_scenarios
+    from props import routemodel
+    routemodel.run(ctx, 'C11')
     run_family(ctx, 'C11', 'c11', 400, 12000, d22_scenarios('C11'))
 
 
 def replay(ctx: Ctx, path: str) -> None:
     import json
-    sc = json.load(open(path))['replay']['scenario']
+    rep = json.load(open(path))['replay']
+    if 'route_case' in rep:
+        from props import routemodel
+        routemodel.run(ctx, 'C11', [dict(rep['route_case'], id='route-replay')])
+        return
+    sc = rep['scenario']
     run_family(ctx, 'C11', 'c11', 0, 0, [sc])
